@@ -456,7 +456,7 @@ _OBSERVED_KEYS = ("ran", "ret", "seq", "after", "before")
 
 def _select_cases(ctx, rng, small, chunked):
     """ Which of the TLC schedules are executed: all without hangs (hang cases cost seconds: seeded sample). """
-    limits = {"hang": 36, "chunked": 120, "chunked_hang": 6} if ctx.quick else {"hang": 400, "chunked": 1500,
+    limits = {"hang": 24, "chunked": 80, "chunked_hang": 4} if ctx.quick else {"hang": 400, "chunked": 1500,
                                                                                    "chunked_hang": 40}
     cases = []
     plain = [(c, s) for c, s in small if "hang" not in c["out"]]
@@ -673,11 +673,18 @@ def run(ctx):
     broken = [f for f in ctx.failures if f["op"] in ("machinery", "trace")]
     ctx.failures = [f for f in ctx.failures if f["op"] not in ("drift", "machinery", "trace")]
     ctx.notes["drift_observed_order_not_in_model"] = len(drift)
-    ctx.notes["schedules_not_enforced"] = len(stuck) + len(broken)
+    really_stuck = [case for case in stuck if not observed[case["id"]].get("_skipped")]
+    ctx.notes["schedules_not_enforced"] = len(really_stuck) + len(broken)
+    ctx.notes["forced_runs_skipped_after_stuck_budget"] = len(stuck) - len(really_stuck)
     if (stuck or broken) and not ctx.failures:
-        what = broken[0]["clause"] + " on " + canon(broken[0]["input"])[:300] if broken else \
-            "a task waited more than %.0f s for its predecessor: %s" % (BARRIER_DEADLINE, canon(stuck[0]["input"])[:300])
-        raise MachineryError(f"{len(stuck) + len(broken)} schedules could not be enforced / harness inconsistencies: {what}")
+        if broken:
+            what = broken[0]["clause"] + " on " + canon(broken[0]["input"])[:300]
+        else:
+            what = ("a task waited more than %.0f s for its predecessor, e.g. %s (%d further forced runs were not attempted)"
+                    % (BARRIER_DEADLINE, canon(really_stuck[0]["input"])[:300] if really_stuck else "?",
+                       len(stuck) - len(really_stuck)))
+        raise MachineryError(f"{len(really_stuck) + len(broken)} schedules could not be enforced on the real pool "
+                             f"(its chunking or worker count differs from Pool.tla, or the machine is overloaded): {what}")
     _canaries(ctx, events)
     kinds = {}
     for case in cases:
